@@ -1,0 +1,84 @@
+//go:build verif
+// +build verif
+
+package rpc
+
+import (
+	"bytes"
+
+	"github.com/logrange/logrange/api"
+	"github.com/logrange/range/pkg/utils/encoding/xbinary"
+)
+
+// Hooks of the C13 verification harness: exported wrappers around the unexported request
+// decoders. Compiled only under the build tag `verif`.
+
+// VC13Event is what wpIterator.Get hands to the partition for one record
+type VC13Event struct {
+	Ts     int64
+	Msg    []byte
+	Fields string
+}
+
+// VC13WpRun runs the server-side handling of a write packet body: wpIterator.init, then the
+// consumer loop Get / Next until Get fails. Values are copied out.
+func VC13WpRun(buf []byte) (tags string, evs []VC13Event, err error) {
+	var wpi wpIterator
+	err = wpi.init(buf)
+	if err != nil {
+		return "", nil, err
+	}
+	tags = string([]byte(wpi.tags))
+	for {
+		lge, _, e := wpi.Get(nil)
+		if e != nil {
+			break
+		}
+		// a second Get without Next must hand out the same event
+		lge2, _, e2 := wpi.Get(nil)
+		if e2 != nil || lge2.Timestamp != lge.Timestamp || string(lge2.Msg) != string(lge.Msg) || lge2.Fields != lge.Fields {
+			panic("VC13WpRun: repeated Get differs")
+		}
+		evs = append(evs, VC13Event{Ts: lge.Timestamp, Msg: append([]byte{}, lge.Msg...), Fields: string([]byte(lge.Fields))})
+		wpi.Next(nil)
+	}
+	return tags, evs, nil
+}
+
+// VC13UnmarshalLogEvent wraps unmarshalLogEvent
+func VC13UnmarshalLogEvent(buf []byte) (int, api.LogEvent, error) {
+	var le api.LogEvent
+	n, err := unmarshalLogEvent(buf, &le, true)
+	return n, le, err
+}
+
+// VC13UnmarshalQueryRequest wraps unmarshalQueryRequest
+func VC13UnmarshalQueryRequest(buf []byte) (int, api.QueryRequest, error) {
+	var qr api.QueryRequest
+	n, err := unmarshalQueryRequest(buf, &qr, true)
+	return n, qr, err
+}
+
+// VC13UnmarshalQueryResult wraps unmarshalQueryResult
+func VC13UnmarshalQueryResult(buf []byte) (int, api.QueryResult, error) {
+	var qr api.QueryResult
+	n, err := unmarshalQueryResult(buf, &qr, true)
+	return n, qr, err
+}
+
+// VC13EncodeWritePacket encodes a write packet the way the client does
+func VC13EncodeWritePacket(tags, fields string, evs []*api.LogEvent) []byte {
+	wp := writePacket{tags: tags, fields: fields, events: evs}
+	var bb bytes.Buffer
+	ow := xbinary.ObjectsWriter{Writer: &bb}
+	wp.WriteTo(&ow)
+	return bb.Bytes()
+}
+
+// VC13EncodeQueryRequest encodes a query request the way the client does
+func VC13EncodeQueryRequest(qr *api.QueryRequest) []byte {
+	var bb bytes.Buffer
+	ow := xbinary.ObjectsWriter{Writer: &bb}
+	writeQueryRequest(qr, &ow)
+	return bb.Bytes()
+}
